@@ -17,12 +17,36 @@
  *            inv/resp = number of scheduler steps started when the call was made / had returned. */
 #include <time.h>
 #include <stdarg.h>
+#include <stdlib.h>
+#if defined(VERIF_RACE)
+/* race-exploration build (search only, never compared with the model): the TU is compiled by clang
+ * -fsanitize=thread and linked with tsanrt.c instead of the TSan runtime: EVERY access, plain or atomic,
+ * to the registered shared bytes -- the table, every head and bucket array it allocates (malloc is
+ * wrapped for the two repo files), the items -- is a scheduling point; no macro interposition.
+ * nanosleep -> cos_spin also covers the wait loop of parsec_atomic_lock (atomic-c11.h). */
+extern void race_share(const void *p, unsigned long len); extern void race_reset(void);
+#include "cosched.h"
+#define nanosleep(a, b) (cos_spin(), 0)
+static void *hx_malloc(size_t n) { void *p = malloc(n); if (p) race_share(p, n); return p; }
+#include "parsec/parsec_config.h"
+#include "parsec/sys/atomic.h"
+#include "parsec/class/parsec_object.h"
+#include "parsec/class/list.h"
+#include "parsec/utils/mca_param.h"
+#include "parsec/utils/debug.h"
+#define malloc(n) hx_malloc(n)
+#include "parsec/class/parsec_rwlock.c"
+#include "parsec/class/parsec_hash_table.c"
+#undef malloc
+#undef nanosleep
+#else
 #include "interpose.h"
 #include "cosched.h"
 #define nanosleep(a, b) (cos_spin(), 0)
 #include "parsec/class/parsec_rwlock.c"
 #undef nanosleep
 #include "parsec/class/parsec_hash_table.c"
+#endif
 #include "hcommon.h"
 
 typedef struct { parsec_hash_table_item_t hi; long val; } hitem_t;
@@ -129,6 +153,9 @@ static void worker(void *arg) {
 }
 
 static void table_setup(long bits, long hint, long maxbits) {
+#if defined(VERIF_RACE)
+    race_reset(); race_share(&ht, sizeof(ht)); race_share(items, sizeof(hitem_t) * (MAXOPS + MAXT * 256));
+#endif
     parsec_mca_param_set_int(parsec_hash_table_mca_param_mch_index, (int)hint);
     parsec_mca_param_set_int(parsec_hash_table_mca_param_mnb_index, (int)maxbits);
     memset(&ht, 0, sizeof(ht));
